@@ -71,6 +71,54 @@ def cv_phi(width=10.0, extra="", lower=-180.0, upper=180.0):
             % (fnum(width), fnum(lower), fnum(upper), extra))
 
 
+def ext_block(sigma, tau, gamma, temp=None, refl_lower=False, refl_upper=False, tsf=1, subtract=False,
+              outputs=True):
+    """colvar keywords of an extended-Lagrangian variable (to be passed as extra= to cv_d1/cv_d2/cv_d3)"""
+    s = ("  extendedLagrangian on\n  extendedFluctuation %s\n  extendedTimeConstant %s\n"
+         "  extendedLangevinDamping %s\n" % (fnum(sigma), fnum(tau), fnum(gamma)))
+    if temp is not None:
+        s += "  extendedTemp %s\n" % fnum(temp)
+    if refl_lower:
+        s += "  reflectingLowerBoundary on\n"
+    if refl_upper:
+        s += "  reflectingUpperBoundary on\n"
+    if tsf != 1:
+        s += "  timeStepFactor %d\n" % tsf
+    if subtract:
+        s += "  subtractAppliedForce on\n"
+    if outputs:
+        s += "  outputVelocity on\n  outputEnergy on\n  outputTotalForce on\n  outputAppliedForce on\n"
+    return s
+
+
+def smooth_tour(rng, n, lo, hi, seg, out_lo=True, out_hi=True, bits=6, depth=0.25):
+    """n+1 dyadic values: piecewise-linear path with knots every `seg` steps that alternates between the
+    inside of [lo,hi] and sustained excursions beyond the chosen side(s) (by up to depth*(hi-lo))"""
+    span = hi - lo
+    q = 1 << bits
+    nk = n // max(1, seg) + 2
+    sides = [s for s, on in (("lo", out_lo), ("hi", out_hi)) if on]
+    pts = [rng.uniform(lo + 0.15 * span, hi - 0.15 * span)]
+    for k in range(1, nk + 1):
+        m = k % 3
+        if m == 0 or not sides:
+            pts.append(rng.uniform(lo + 0.1 * span, hi - 0.1 * span))
+        else:
+            s = sides[(k // 3) % len(sides)] if len(sides) > 1 else sides[0]
+            if s == "hi":
+                pts.append(rng.uniform(hi + 0.05 * span, hi + depth * span))
+            else:
+                pts.append(rng.uniform(lo - depth * span, lo - 0.05 * span))
+    out = []
+    for i in range(n + 1):
+        u = i / float(max(1, seg))
+        k = min(int(u), nk - 1)
+        f = u - k
+        v = pts[k] * (1 - f) + pts[k + 1] * f
+        out.append(round(v * q) / q)
+    return out
+
+
 def dy(rng, lo, hi, bits=6):
     q = 1 << bits
     return rng.randint(int(math.ceil(lo * q)), int(math.floor(hi * q))) / q
